@@ -340,4 +340,85 @@ def C12(tier, seed):
     }
 
 
-REGISTRY = {"C12": C12, "C03": C03, "C02": C02, "C17": C17, "C11": C11, "C20": C20, "C09": C09, "C19": C19, "C18": C18, "C13": C13, "C07": C07, "C14": C14, "C15": C15}
+def mean_stage(part, prop, req, sets, shards=8):
+    return Stage(part, ("Gen_Mean", "Gen_Mean.cfg"), ("Trace_Mean", "Trace_Mean.cfg"),
+                 env={"PART": part, "MEAN_SETS": sets}, required=req, shards=shards)
+
+
+def arith_req(P):
+    return [P + "." + c for c in ("no_panic", "level_echo", "shape", "bound_lo", "bound_hi", "sample_mean", "sample_variance",
+                                  "sample_std_dev", "sample_count", "type.f64", "type.f32", "kind.two", "kind.upper", "kind.lower",
+                                  "negative_critical_value", "t_branch", "switch_zone", "normal_branch", "small_n")]
+
+
+def C01(tier, seed):
+    st = mean_stage("c01", "C01", arith_req("C01") + ["C01.call_styles_agree", "C01.constant_sample", "C01.style.ci", "C01.style.extend",
+                                                    "C01.style.append", "C01.style.meanci"], 40 if tier == "quick" else 400)
+    st.mc = list(TABLES_MC)
+    return {
+        "stages": [st],
+        "exhaustive": False,
+        "rule": "40 (400) seeded random run-length samples (n in 2..301, offsets, dyadic scalings 2^-20..2^20, duplicates, mixed signs) + 6 special "
+                "shapes + large n as blocks on both sides of the t->z switch (up to 10^6) x 6 (17) levels x 3 kinds x f32/f64 x 4 (6) call styles. "
+                "TLC computes the exact mean / variance of every sample and accepts a bound b only if (n b - S1)^2 (n-1) = c^2 V within the "
+                "tolerance model, c^2 over the reference enclosure of the t / normal quantile, with the sign of c. Distinct = (sample, confidence, type, style).",
+        "assumptions": NUM_TRUST + ["tolerance model of DESIGN.md 3.7 (conditioning-aware); data generated inside the conditioning domain kappa*u <= 2^-10"],
+    }
+
+
+def C06(tier, seed):
+    st = mean_stage("c06", "C06", arith_req("C06"), 0)
+    st.mc = list(TABLES_MC)
+    return {
+        "stages": [st, prop_stage("row", 30 if tier == "quick" else 60, ["C02.root_lo", "C02.root_hi", "C02.negative_z", "C02.zero_z"],
+                                  levels="all")],
+        "exhaustive": True,
+        "rule": "symmetric probe samples (+-1, exact standard error 1/sqrt(n-1)) for 150 (all 430) degrees-of-freedom rows of the reference table "
+                "(every integer 1..120 (300), log-spaced up to 99 999) and n beyond the switch x all 17 levels x 3 kinds: the implied critical value "
+                "must lie in the certified enclosure of the true t / normal quantile (relative allowance 2^-29 .. 2^-12 by nu). The z implied by "
+                "proportion intervals is decided by the root enclosure of C02 (same validator, all 17 levels).",
+        "assumptions": NUM_TRUST + ["quantiles are checked at the tabulated (nu, level) pairs only"],
+    }
+
+
+def C04(tier, seed):
+    st = mean_stage("c04", "C04", ["C04.no_panic", "C04.different_sizes", "C04.shape", "C04.paired_bound", "C04.paired_is_arith_of_differences",
+                                   "C04.unpaired_bound", "C04.unpaired_bound_evaluated", "C04.unpaired_integer_nu", "C04.unpaired_bracketed_nu",
+                                   "C04.exchange_mirrors", "C04.call_styles_agree", "C04.unpaired_family_0", "C04.unpaired_family_1",
+                                   "C04.unpaired_family_2"], 30 if tier == "quick" else 300)
+    st.mc = list(TABLES_MC)
+    return {
+        "stages": [st],
+        "exhaustive": False,
+        "rule": "30 (300) seeded paired samples (n 2..150, explicit aligned sequences) through 3 (4) feeding styles, unequal lengths in both directions; "
+                "30 (300) unpaired sample pairs in three families (one constant sample: nu = na-1; equal spread and size: nu = 2n; random: nu bracketed "
+                "by floor/ceil rows of the t table) through 4 (8) feeding styles, each also with the samples exchanged (must mirror bit for bit with "
+                "upper and lower exchanged) x 6 levels x 3 kinds x f32/f64.",
+        "assumptions": NUM_TRUST + ["unpaired critical value at non-integer effective dof is bracketed between the neighbouring integer rows"],
+    }
+
+
+def C05(tier, seed):
+    st = mean_stage("c05", "C05", ["C05.no_panic", "C05.geo_outcome", "C05.geo_bounds", "C05.geo_mean", "C05.geo_sem", "C05.mean_inequality",
+                                   "C05.harm_outcome", "C05.harm_bounds", "C05.harm_mean", "C05.harm_sem", "C05.harm_straddle_rejected",
+                                   "C05.call_styles_agree", "C05.kind.two", "C05.kind.upper", "C05.kind.lower"], 30 if tier == "quick" else 300)
+    rej = []
+    for fl in ("geo", "harm"):
+        a = acc_stage(fl, 2 if tier == "quick" else 3, req=["C05.rejected_with_value", "C05.rejection_keeps_state", "C05.rejected." + fl],
+                      shards=8, name=f"reject_{fl}")
+        a.required -= set(ACC_REQ)
+        rej.append(a)
+    return {
+        "stages": [st] + rej,
+        "exhaustive": False,
+        "rule": "30 (300) seeded strictly positive samples (wide dynamic range, powers of two, near-constant, straddling) x 6 (17) levels x 3 kinds x "
+                "f32/f64: the geometric / harmonic interval, mean and standard error must be the documented transforms of the crate's own arithmetic "
+                "results in log / reciprocal space (exp sampled as an uninterpreted function, reciprocals checked exactly, 4-8 ulp), H <= G <= A; "
+                "every program of 2 (3) calls over geo / harm registers with non-positive values (0, -0, -1, -inf) at every position: rejected with "
+                "NonPositiveValue carrying the value, state unchanged (or the admissible prefix for a bulk call).",
+        "assumptions": TLC_TRUST + ["ln and exp are uninterpreted: the harness samples them with the same float functions the crate calls",
+                                   "the arithmetic-mean interval in the transformed space is the crate's own (decided by C01)"],
+    }
+
+
+REGISTRY = {"C01": C01, "C04": C04, "C05": C05, "C06": C06, "C12": C12, "C03": C03, "C02": C02, "C17": C17, "C11": C11, "C20": C20, "C09": C09, "C19": C19, "C18": C18, "C13": C13, "C07": C07, "C14": C14, "C15": C15}
